@@ -98,6 +98,28 @@ func relayCase(c string) string {
 			if r.VerifPending() > 0 {
 				notes = append(notes, "SENDER-STUCK")
 			}
+		case "B":
+			// a burst: n lines handed to RelayLine back to back, without waiting for the sender in between
+			n, _ := strconv.Atoi(f[1])
+			done := make(chan struct{})
+			go func() {
+				for k := 0; k < n; k++ {
+					r.RelayLine(fmt.Sprintf("b%d:1|c", k))
+				}
+				close(done)
+			}()
+			select {
+			case <-done:
+			case <-time.After(20 * time.Second):
+				notes = append(notes, "BLOCKED")
+			}
+			deadline := time.Now().Add(5 * time.Second)
+			for r.VerifPending() > 0 && time.Now().Before(deadline) {
+				time.Sleep(50 * time.Microsecond)
+			}
+			if r.VerifPending() > 0 {
+				notes = append(notes, "SENDER-STUCK")
+			}
 		case "T":
 			// two ticks: the second one is accepted only after the first was processed completely
 			if !tick() || !tick() {
